@@ -335,7 +335,7 @@ def _map_tree(tree, fn):
     return (q, attrs, tuple(k if isinstance(k, str) else _map_tree(k, fn) for k in kids))
 
 
-def _repairs(d: GD.Dtd, oname: str) -> list:
+def _repairs(d: GD.Dtd, oname: str, doc_el=None) -> list:
     """(bucket, function applied to both trees that erases exactly the analysed defect's effect, extra condition on (exp, act))"""
     out = []
     amp = {(e.name, attr_key(a)) for e in d.elems.values() for a in e.attrs if a.mode in ("FIXED", "DEFAULT") and "&" in (a.value or "")}
@@ -355,6 +355,28 @@ def _repairs(d: GD.Dtd, oname: str) -> list:
             q, attrs, kids = t
             return (q[len(pre):] if q.startswith(pre) else q, attrs, kids)
         out.append(("KF/xmlns-namespace-not-written-in-output", lambda t: _map_tree(t, unqualify), lambda e, a: e[0] == rq and a[0] == d.root))
+    any_names = {e.name for e in d.elems.values() if e.content == GD.ANY}
+    late = set()
+    for el in (doc_el.iter() if doc_el is not None else ()):
+        if el.local in any_names:
+            seen_el = False
+            for k in el.kids:
+                if isinstance(k, I.El):
+                    seen_el = True
+                elif seen_el and k:
+                    late.add(k)
+    if late:
+        # an ANY element becomes a class with one non-list, non-mixed wildcard field: text that follows a child element has no place in it
+        # (the trees may be order-normalised, so the texts concerned are taken from the document itself)
+        def drop_late_text(t):
+            q, attrs, kids = t
+            if local(q) not in any_names:
+                return t
+            return (q, attrs, tuple(k for k in kids if not (isinstance(k, str) and k in late)))
+
+        def count_late(t):
+            return (sum(1 for k in t[2] if isinstance(k, str) and k in late) if local(t[0]) in any_names else 0) + sum(count_late(k) for k in t[2] if not isinstance(k, str))
+        out.append(("KF/any-content-text-after-child-element-is-lost", lambda t: _map_tree(t, drop_late_text), lambda e, a: count_late(a) < count_late(e)))
     if oname == "compound":
         # a non-repeating choice with a sequence branch becomes one non-list compound field: only one member of the branch survives
         lost = {}
@@ -375,7 +397,7 @@ def _repairs(d: GD.Dtd, oname: str) -> list:
 
 
 def known_diff(exp, act, d: GD.Dtd, doc_el: I.El, oname: str, ordered: bool) -> str | None:
-    reps = _repairs(d, oname)
+    reps = _repairs(d, oname, doc_el)
     for name, fn, cond in reps:
         if cond(exp, act) and fn(exp) == fn(act):
             return name
